@@ -115,7 +115,7 @@ func (c *compressionPool) Compress(dst *bytes.Buffer, src *bytes.Buffer) *Error 
 	}
 	if _, err := io.Copy(compressor, src); err != nil {
 		_ = c.putCompressor(compressor)
-		return errorf(CodeInternal, "compress: %w", err)
+		return errorf(CodeInternal, "compress: %w", hideEOF(err))
 	}
 	if err := c.putCompressor(compressor); err != nil {
 		return errorf(CodeInternal, "recycle compressor: %w", hideEOF(err))
